@@ -110,9 +110,14 @@ class BloomSystem(System):
     def events(self, cfg, st):
         keys, _, _ = self._alpha(cfg)
         evs = [("add", i) for i in range(len(keys))]
+        # the *_alt interface: hashes computed up front for two keys, then inserted (answers must be independent lists);
+        # and a hash list longer than number_hashes (only the first number_hashes values count)
+        evs.append(("add_alt2", 0, 1))
+        evs.append(("add_alt_long", 2))
         evs += [("reload", ch) for ch in ("bytes", "hex", "file")]
         evs.append(("union", "other"))
         evs.append(("union", "empty"))
+        evs.append(("union", "derived"))
         if self._near(cfg) is not None:
             evs.append(("union", "near"))
         evs.append(("clear",))
@@ -127,6 +132,21 @@ class BloomSystem(System):
             if obs[0] == "ok":
                 if ev[1] not in m["keys"]:
                     m["keys"] = sorted(m["keys"] + [ev[1]])
+                m["count"] += 1
+            return obs
+        if kind == "add_alt2":
+            i, j = ev[1], ev[2]
+            obs = call(lambda: (lambda h1, h2: (f.add_alt(h1), f.add_alt(h2)))(f.hashes(keys[i]), f.hashes(keys[j])))
+            if obs[0] == "ok":
+                m["keys"] = sorted(set(m["keys"]) | {i, j})
+                m["count"] += 2
+                return ("ok", None)
+            return obs
+        if kind == "add_alt_long":
+            i = ev[1]
+            obs = call(lambda: f.add_alt(f.hashes(keys[i], f.number_hashes + 3)))
+            if obs[0] == "ok":
+                m["keys"] = sorted(set(m["keys"]) | {i})
                 m["count"] += 1
             return obs
         if kind == "clear":
@@ -154,6 +174,22 @@ class BloomSystem(System):
                 return ("ok", None)
             return r
         if kind == "union":
+            if len(ev) > 1 and ev[1] == "derived":
+                # the operand is itself a union result holding one key (its element count is an estimate, often 0)
+                src = BloomFilter(cfg["n"], cfg["p"], hash_function=hf)
+                src.add(keys[2])
+                d = call(src.union, BloomFilter(cfg["n"], cfg["p"], hash_function=hf))
+                if d[0] != "ok" or d[1] is None:
+                    return ("exc", "union_with_empty", repr(d)[:100])
+                r = call(f.union, d[1])
+                if r[0] == "ok" and r[1] is not None:
+                    st.impl = r[1]
+                    m["keys"] = sorted(set(m["keys"]) | {2})
+                    m["count"] = r[1].elements_added
+                    if "union_derived" not in m["via"]:
+                        m["via"] = sorted(m["via"] + ["union_derived"])
+                    return ("ok", "filter")
+                return ("ok", None) if r[0] == "ok" else r
             empty = len(ev) > 1 and ev[1] in ("empty", "near")
             if len(ev) > 1 and ev[1] == "near":
                 other = BloomFilter(cfg["n"], self._near(cfg), hash_function=hf)
@@ -230,8 +266,10 @@ class BloomSystem(System):
         # C14: the counter moves as documented on this step
         if "C14" in props:
             n0, n1 = pre.impl.elements_added, post.impl.elements_added
-            if ev[0] == "add" and n1 != n0 + 1:
+            if ev[0] in ("add", "add_alt_long") and n1 != n0 + 1:
                 bad("C14", "bloom.add_counts_one", {"before": n0, "after": n1})
+            if ev[0] == "add_alt2" and n1 != n0 + 2:
+                bad("C14", "bloom.add_counts_one", {"before": n0, "after": n1, "ev": ev})
             if ev[0] == "reload" and n1 != n0:
                 bad("C14", "bloom.reload_keeps_count", {"before": n0, "after": n1, "channel": ev[1]})
             if ev[0] == "clear" and n1 != 0:
@@ -257,6 +295,10 @@ class BloomSystem(System):
         if "C01" in props:
             for i in m["keys"]:
                 r1, r2 = call(f.check, keys[i]), call(f.__contains__, keys[i])
+                r3 = call(lambda: f.check_alt(f.hashes(keys[i], f.number_hashes + 2)))
+                if r3 != ("ok", True):
+                    bad("C01", "bloom.added_key_present_via_check_alt", {"key": repr(keys[i]), "check_alt(longer hash list)": r3, "after": ev})
+                    break
                 if r1 != ("ok", True) or r2 != ("ok", True):
                     bad("C01", "bloom.added_key_present", {"key": repr(keys[i]), "check": r1, "in": r2, "after": ev,
                                                             "geometry": [cfg["m"], cfg["k"]], "strategy": cfg["strat"]})
